@@ -13,7 +13,8 @@ open Cdi
 def ItemsAsc (items : List ScanItem) : Prop := items.Pairwise (fun a b => a.prio ≤ b.prio)
 
 theorem scanDir_prio {skip : Bool} {prio : Nat} {dir : Str} {st : DirState} {items : List ScanItem}
-    (h : scanDir skip prio dir st = some items) : ∀ it ∈ items, it.prio = prio ∧ isSpecName it.path = true := by
+    (h : scanDir skip prio dir st = some items) :
+    ∀ it ∈ items, it.prio = prio ∧ (it.spec.isSome = true → isSpecName it.path = true) := by
   cases st with
   | missing => simp [scanDir] at h; subst h; simp
   | unscannable => simp [scanDir] at h; obtain ⟨_, rfl⟩ := h; simp
@@ -23,7 +24,7 @@ theorem scanDir_prio {skip : Bool} {prio : Nat} {dir : Str} {st : DirState} {ite
     subst h
     intro it hit
     split at hit
-    · next hs => simp at hit; subst hit; exact ⟨rfl, hs⟩
+    · next hs => simp at hit; subst hit; exact ⟨rfl, fun _ => hs⟩
     · cases hit
   | dir entries =>
     simp only [scanDir] at h
@@ -46,7 +47,7 @@ theorem scanDir_prio {skip : Bool} {prio : Nat} {dir : Str} {st : DirState} {ite
             split at hit
             · next hs =>
               rcases List.mem_cons.mp hit with rfl | hit
-              · exact ⟨rfl, hs⟩
+              · exact ⟨rfl, fun _ => hs⟩
               · exact ih hr it hit
             · exact ih hr it hit
         · cases h
@@ -59,12 +60,13 @@ theorem scanDir_prio {skip : Bool} {prio : Nat} {dir : Str} {st : DirState} {ite
           split at hit
           · next hs =>
             rcases List.mem_cons.mp hit with rfl | hit
-            · exact ⟨rfl, hs⟩
+            · exact ⟨rfl, fun _ => hs⟩
             · exact ih hr it hit
           · exact ih hr it hit
 
 theorem scanFrom_asc (skip : Bool) : ∀ (dirs : List (Str × DirState)) (p : Nat),
-    ItemsAsc (scanFrom skip p dirs) ∧ ∀ it ∈ scanFrom skip p dirs, p ≤ it.prio ∧ isSpecName it.path = true := by
+    ItemsAsc (scanFrom skip p dirs) ∧
+    ∀ it ∈ scanFrom skip p dirs, p ≤ it.prio ∧ (it.spec.isSome = true → isSpecName it.path = true) := by
   intro dirs
   induction dirs with
   | nil => intro p; simp [scanFrom, ItemsAsc]
@@ -96,10 +98,11 @@ theorem scanFrom_asc (skip : Bool) : ∀ (dirs : List (Str × DirState)) (p : Na
 theorem scan_prio_ascending (dirs : List (Str × DirState)) : ItemsAsc (scan dirs) :=
   (scanFrom_asc true dirs 0).1
 
-/-- **C01 (only Spec-named files count)**: every loaded or failing item is a
-`.json`/`.yaml` path; subdirectories and other names contribute nothing. -/
+/-- **C01 (only Spec-named files count)**: every loaded item is a `.json`/`.yaml` path;
+subdirectories and other names contribute nothing (an item that is not Spec-named is the
+error report of a directory that could not be listed). -/
 theorem scan_only_spec_names (dirs : List (Str × DirState)) :
-    ∀ it ∈ scan dirs, isSpecName it.path = true :=
+    ∀ it ∈ scan dirs, it.spec.isSome = true → isSpecName it.path = true :=
   fun it hit => ((scanFrom_asc true dirs 0).2 it hit).2
 
 theorem refsOf_prio (path : Str) (prio : Nat) (s : Spec) : ∀ r ∈ refsOf path prio s, r.prio = prio := by
